@@ -40,7 +40,7 @@ def incoq_histories(env, pid, hist_lines, model_proj):
     wdir = os.path.join(env["WORK"], pid)
     fn = os.path.join(wdir, "InCoqHist.v")
     with open(fn, "w") as f:
-        f.write("From stdpp Require Import gmap.\nRequire Import Model.Base Model.Ante Model.Validate Model.State Model.App.\nOpen Scope Z_scope.\n")
+        f.write("From stdpp Require Import gmap.\nRequire Import Model.Base Model.Ante Model.Validate Model.State Model.Staking Model.Slashing Model.App.\nOpen Scope Z_scope.\n")
         for i, h in enumerate(hist_lines):
             f.write("Definition h%d := %s.\nDefinition r%d := Eval vm_compute in run_history h%d.\nPrint r%d.\n" % (i, sexp_to_coq(h), i, i, i))
     args = ["coqc", "-Q", os.path.join(env["COQ"], "Model"), "Model", fn]
